@@ -1,7 +1,7 @@
 """C03 - exporters are driven one call at a time and within the configured batch bounds."""
 from ..ir import AnalysisBroken, strip_targs, qmatch
 from ..graph import Graph
-from ..expr import access_path, path_str, held_locks, reaching_defs, defs_in_node, leaves
+from ..expr import access_path, path_str, held_locks, reaching_defs, defs_in_node, leaves, origins
 from ..callgraph import CallGraph
 from .common import (Roles, EXPORTER_EXPORT, same_class_inline, member_funcs, nonzero_polarity, comparison,
                      strip_casts, expr_equal, short, FLIP, cond_text, atomic_op)
@@ -190,26 +190,21 @@ def _bounded(prog, g, rd, p_use, f, idx, bound_field, ctx, depth=0, seen=None):
     Returns (verdict, description, def point or None)"""
     if seen is None:
         seen = set()
+    from .common import deparam
+    f, idx, ctx = deparam(f, idx, ctx)
     n = strip_casts(f, idx)
     i = n['i']
     k = n['k']
 
     def is_bound(j):
-        m = strip_casts(f, j)
+        f2, j2, c2 = deparam(f, j, ctx)
+        m = strip_casts(f2, j2)
         if m['k'] == 'member':
-            p = access_path(f, m['i'], ctx)
+            p = access_path(f2, m['i'], c2)
             return p == ('this', bound_field)
         return False
     if is_bound(i):
         return True, 'the batch bound itself', None
-    if k == 'ref' and n.get('sk') == 'param' and ctx is not None and ctx.call is not None and not ctx.lambda_of:
-        # a parameter of an inlined private helper: judge the argument it is bound to, in the caller
-        for pi, prm in enumerate(f.params):
-            if prm['id'] == n.get('id'):
-                args = ctx.call.get('args', [])
-                if pi < len(args) and args[pi] is not None and args[pi] >= 0:
-                    cpt = g.point_of.get((id(ctx.parent), ctx.call['i']))
-                    return _bounded(prog, g, rd, cpt or p_use, ctx.caller, args[pi], bound_field, ctx.parent, depth + 1, seen)
     if k == 'cond':
         cmp_ = comparison(f, n['cnd'])
         if cmp_:
@@ -239,6 +234,19 @@ def _bounded(prog, g, rd, p_use, f, idx, bound_field, ctx, depth=0, seen=None):
             return vb
         return None, 'conditional with an arm of unknown bound', None
     if k == 'call':
+        # a private helper inlined into the graph: the value is what it returns - every return has to be bounded
+        for c_ in g.ctxs:
+            if c_.call is n and c_.parent is ctx and not c_.lambda_of:
+                rets = [p_ for p_ in g.points if p_.ctx is c_ and p_.n is not None and p_.n['k'] == 'return' and p_.n.get('e') is not None and p_.n['e'] >= 0]
+                worst = None
+                for rp in rets:
+                    r_ = _bounded(prog, g, rd, rp, c_.f, rp.n['e'], bound_field, c_, depth + 1, seen)
+                    if r_[0] is False:
+                        return False, r_[1], (r_[2] or rp)
+                    if r_[0] is None:
+                        worst = (None, r_[1], rp)
+                if rets:
+                    return worst or (True, 'every return of the helper is bounded', None)
         c = strip_targs(n.get('c', '') or '')
         if c in ('std::min',) and any(_bounded(prog, g, rd, p_use, f, a, bound_field, ctx, depth + 1, seen)[0] is True
                                        for a in n.get('args', [])):
@@ -300,7 +308,7 @@ def _bounded(prog, g, rd, p_use, f, idx, bound_field, ctx, depth=0, seen=None):
                 if g.must_pass_edge(p_use, le_edge, src=dp):
                     continue
                 if r[0] is False:
-                    return False, r[1], dp
+                    return False, r[1], (r[2] or dp)
                 worst = (None, r[1], dp)
         return worst
     if k == 'lit':
@@ -348,6 +356,44 @@ def _ticket_split(prog, g, rd, roles, cp):
     return f, pt, a, b, ctx
 
 
+def _depends_on_pending(g, roles, f, cnd, ctx, depth=0):
+    """None when the condition does not test the pending flush ticket; else the truth value of the condition that means
+    "a ticket is pending" (follows locals and helper parameters; `x`, `x != 0`, `x > 0` mean pending when true, `x == 0` when false)"""
+    from ..expr import norm_cond, reaching_defs as _rdx
+    if not roles.pending or depth > 4:
+        return None
+    rd_ = getattr(g, '_rd_cache', None)
+    if rd_ is None:
+        rd_ = _rdx(g)
+        g._rd_cache = rd_
+    core, pol = norm_cond(f, cnd)
+    c = comparison(f, core)
+    subj, inv = core, False
+    if c and strip_casts(f, c[2]).get('v') == 0:
+        subj = c[1]
+        inv = (c[0] == '==')
+    elif c:
+        return None if not any(_mentions_pending(g, rd_, roles, f, x, ctx) for x in (c[1], c[2])) else (pol if c[0] in ('>', '!=') else None)
+    for (sf, sn, sc) in origins(g, rd_, f, subj, ctx):
+        if _mentions_pending(g, rd_, roles, sf, sn['i'], sc):
+            return pol if not inv else (not pol)
+        if sn['k'] == 'binop' or (sn['k'] == 'call' and sn.get('op') in ('==', '!=', '>')):
+            sub = _depends_on_pending(g, roles, sf, sn['i'], sc, depth + 1)
+            if sub is not None:
+                return sub if (pol != inv) else (not sub)
+    return None
+
+
+def _mentions_pending(g, rd_, roles, f, idx, ctx, depth=0):
+    for (sf, sn, sc) in origins(g, rd_, f, idx, ctx):
+        for j in sf.subtree(sn['i']):
+            m = sf.nodes[j]
+            o = atomic_op(m)
+            if o and o[0] == 'load' and path_str(access_path(sf, m['obj'], sc)) == roles.pending:
+                return True
+    return False
+
+
 def _controlling_role(g, roles, dp):
     """describe the branch under which definition point dp executes, by role"""
     f = dp.f
@@ -357,10 +403,9 @@ def _controlling_role(g, roles, dp):
         for (q, lab) in p.succ:
             if lab and isinstance(lab[0], int) and lab[1] is f:
                 if g.must_pass_edge(dp, lambda a, b, l, _p=p, _q=q, _lab=lab: a is _p and b is _q):
-                    lv = leaves(f, lab[0])
-                    fields = {l[1] for l in lv if l[0] == 'field'}
-                    if roles.pending and roles.pending in fields:
-                        return 'pending-flush-branch' if lab[2] else 'no-pending-flush-branch'
+                    dep = _depends_on_pending(g, roles, f, lab[0], p.ctx)
+                    if dep is not None:
+                        return 'pending-flush-branch' if (lab[2] is dep) else 'no-pending-flush-branch'
                     best = 'branch:%s' % cond_text(f, lab[0])
     return best or 'unconditional'
 
@@ -424,7 +469,7 @@ def rule_r3_r4(ck, prog, cg, roles):
             elif v is False:
                 n3 += 1
                 unbounded_pending = unbounded_pending or where == 'pending-flush-branch'
-                ck.violation('C03.R3', dp.f if dp is not None else f, site, dp.n if dp is not None else cp.n,
+                ck.violation('C03.R3', g.unit_ctx(dp.ctx, exports).f if dp is not None else f, site, dp.n if dp is not None else cp.n,
                              'a definition of the batch count reaching Consume is not bounded by %s: %s' % (roles.bound_field, why),
                              path=g.describe_path(g.path(dp, cp) or []) if dp is not None else None)
                 # the other reaching definitions are still checked: report a HOLDS/next verdict for them
@@ -517,6 +562,8 @@ def _other_defs(prog, g, rd, cp, f, arg, roles, bad_dp):
         if val is None:
             continue
         r = _bounded(prog, g, rd, dp, dp.f, val, roles.bound_field, dp.ctx)
+        if r[2] is bad_dp:
+            continue   # the same inner definition (a return of an inlined helper), reached through this definition
         out.append((r[0], r[1], dp))
     return out
 
